@@ -39,12 +39,12 @@ theorem OInv.set {n : Nat} {x' : Nat → Rat} {m m' : Mat} (h : OInv n x' m m') 
     OInv n x' m (m'.set a b v) := by
   constructor
   · intro i j hij
-    simp only [Mat.set]
+    simp only [Mat.set_apply]
     split
     · rename_i hc; obtain ⟨rfl, rfl⟩ := hc; exact hv
     · exact h.1 i j hij
   · intro w
-    simp only [Mat.set]
+    simp only [Mat.set_apply]
     rw [if_neg (by have := (hnu w).1; omega), if_neg (by have := (hnu w).2; omega)]
     exact h.2 w
 
